@@ -1134,7 +1134,7 @@ inline void op(VM &vm) {
         case 50: {
             FN(50, "originToDirectedEdges");
             uint64_t h = vm.reg(); arg_cell(C, h);
-            Buf<H3Index> out(6);
+            Buf<H3Index> out(6, 0x5b);  // poison: every slot must be written (null slot of a pentagon included)
             int rc = originToDirectedEdges(h, out.p);
             done(C, rc);
             if (C.all_cells_valid) {
@@ -1173,10 +1173,13 @@ inline void op(VM &vm) {
         case 53: {
             FN(53, "cellToVertexes");
             uint64_t h = vm.reg(); arg_cell(C, h);
-            Buf<H3Index> out(6);
+            Buf<H3Index> out(6, 0x5b);
             int rc = cellToVertexes(h, out.p);
             done(C, rc);
             if (C.all_cells_valid && rc != 0) violation(sfmt("cellToVertexes(%s) failed with %d", C.d().c_str(), rc));
+            if (C.all_cells_valid && rc == 0)
+                for (int i = 0; i < 6; i++)
+                    if (out.p[i] && !isValidVertex(out.p[i])) violation(sfmt("cellToVertexes(%s) slot %d = %016llx is neither null nor a valid vertex", C.d().c_str(), i, (unsigned long long)out.p[i]));
             if (rc == 0) vm.R[dst] = out.p[vm.rd.u8() % 6];
             break;
         }
